@@ -185,9 +185,10 @@ def _log_entry(ip, args, kw):
 
 
 def _flush(ip, r, a, kw, node):
+    # the call is recorded (it happened exactly once) whether or not the user's logger then fails
+    ip.st.effects = L.seq_append(ip.st.effects, L.mk_tuple([as_v(PyC("flush")), r.term]))
     if ip.branch(L.fresh("flush_raises", L.B), getattr(node, "lineno", 0)):
         raise RaisedEx(ExcVal("Exception", exact=False), getattr(node, "lineno", 0))
-    ip.st.effects = L.seq_append(ip.st.effects, L.mk_tuple([as_v(PyC("flush")), r.term]))
     return PyC(None)
 
 
